@@ -715,9 +715,10 @@ impl StreamsState {
                 let Some(stream) = self.send.get_mut(&id).and_then(|s| s.as_mut()) else {
                     continue;
                 };
-                if stream.pending.is_fully_acked() && !stream.fin_pending {
+                let finished = matches!(stream.state, SendState::DataSent { .. });
+                if stream.pending.is_fully_acked() && !stream.fin_pending && !finished {
                     // Stream data can't be acked in 0-RTT, so we must not have sent anything on
-                    // this stream
+                    // this stream: no data, and not the FIN of an empty stream either
                     continue;
                 }
                 if !stream.is_pending() {
